@@ -133,6 +133,7 @@ H, W = [int(t) for t in os.environ.get("VERIF_SHAPE", "2x2").split("x")]
 KIND = os.environ.get("VERIF_KIND", "B")
 KB = int(os.environ.get("VERIF_KB", "3"))   # bound on symbolic key fields
 SB = int(os.environ.get("VERIF_SB", "2"))   # bound on symbolic steps
+NONE_STEP = os.environ.get("VERIF_NONE_STEP", "1") == "1"   # whether a None step is among the symbolic values (slice x slice)
 
 
 def _arr():
@@ -219,10 +220,10 @@ def h_gather_slice_slice(a: Optional[int], b: Optional[int], c: Optional[int], d
     """
     pre: a is None or -KB <= a <= KB
     pre: b is None or -KB <= b <= KB
-    pre: c is None or (-SB <= c <= SB and c != 0)
+    pre: (c is None and NONE_STEP) or (c is not None and -SB <= c <= SB and c != 0)
     pre: d is None or -KB <= d <= KB
     pre: e is None or -KB <= e <= KB
-    pre: f is None or (-SB <= f <= SB and f != 0)
+    pre: (f is None and NONE_STEP) or (f is not None and -SB <= f <= SB and f != 0)
     post: _
     """
     return _gather_ok(False, a, b, c, False, d, e, f, False)
